@@ -7,7 +7,7 @@
    ends the callers' wait); that the owner gets to act is the progress property C03 and is
    observed by the exact-quiescence monitor. *)
 From Coq Require Import List Arith Bool.
-From VQ Require Import SliceDisp SliceDispProofs SliceBar SliceBarProofs SliceBarrier SliceBarrierProofs.
+From VQ Require Import SliceDisp SliceDispProofs SliceBar SliceBarProofs SliceBarrier SliceBarrierProofs Lockset LocksetProofs.
 Import ListNotations.
 
 (* An accepted job is always visible to the barrier: in its queue (counted by that queue's
@@ -80,6 +80,15 @@ Theorem C06_established_caller_sees_nothing_running :
     okr (xd s) = 0 /\ oth (xd s) = 0.
 Proof. exact fresh_caller_holds. Qed.
 Print Assumptions C06_established_caller_sees_nothing_running.
+
+(* No goroutine waits for itself through the worker's reader/writer lock (coq/Lockset.v): the
+   read lock is never taken by a thread that already holds it, so a writer (a barrier caller
+   about to evaluate its condition, Stop / Restart replacing the channels) arriving in between
+   cannot wedge the two against each other. Checked on every replayed LOCK block. *)
+Theorem C06_no_recursive_read_lock :
+  forall s t s', lkstep s (LRLock t) = Some s' -> is_reader s t = false /\ writer s = None.
+Proof. exact no_recursive_read_lock. Qed.
+Print Assumptions C06_no_recursive_read_lock.
 
 (* non-vacuity: two Stop callers; the second finds Stopped under the first one's hold. A caller
    that returns on seeing Stopped while a job is still in flight is outside the model. *)
